@@ -191,7 +191,8 @@ fn variants(rng: &mut Rng, p: &Prob) -> Vec<Variant> {
         }
     }
     // --- objective scaled by a positive constant
-    for lam in [2.0, 0.125, 3.0] {
+    // (powers of two up to 2^+-24: the objective-scaling constant of the equilibration hits its bounds)
+    for lam in [2.0, 0.125, 3.0, 16777216.0, 1.0 / 16777216.0] {
         let mut q2 = p.clone();
         for v in q2.q.iter_mut() { *v *= lam; }
         for v in q2.P.nzval.iter_mut() { *v *= lam; }
@@ -319,9 +320,17 @@ fn main() {
                 let (x2, s2, z2) = map_back(&v, &sol);
                 let g1 = gap_tol(base.obj, base.obj_dual, 1.0);
                 let g2 = gap_tol(sol.obj, sol.obj_dual, v.lambda);
-                coq = format!("(N.max {} (c_cross {} {} {} {} {} {} {} {} {} {} {} {} {} {} {}))", coq,
+                // residual bounds each run's own Solved verdict guarantees (own data, own point), in base units
+                let n2 = |v: &[f64]| v.iter().map(|x| x * x).sum::<f64>().sqrt();
+                let ni = |v: &[f64]| v.iter().fold(0.0f64, |m, x| m.max(x.abs()));
+                let up = 1.0 + 1e-9;
+                let rp1 = tol_feas * 1f64.max(ni(&p.b) + n2(&base.x) + n2(&base.s)) * up;
+                let rd1 = tol_feas * 1f64.max(ni(&p.q) + n2(&base.x) + n2(&base.z)) * up;
+                let rp2 = tol_feas * 1f64.max(ni(&v.prob.b) + n2(&sol.x) + n2(&sol.s)) * up;
+                let rd2 = tol_feas * 1f64.max(ni(&v.prob.q) + n2(&sol.x) + n2(&sol.z)) / v.lambda * up;
+                coq = format!("(N.max {} (c_cross {} {} {} {} {} {} {} {} {} {} {} {} {} {} {} {} {} {} {} {}))", coq,
                     cn(p.q.len()), cn(p.b.len()), trips(&p.P), trips(&p.A), cdylist(&p.q), cdylist(&p.b),
-                    cdy(tol_feas), cdy(g1), cdy(g2),
+                    cdy(g1), cdy(g2), cdy(rp1), cdy(rd1), cdy(rp2), cdy(rd2), cdy(base.obj), cdy(sol.obj / v.lambda),
                     cdylist(&base.x), cdylist(&base.s), cdylist(&base.z), cdylist(&x2), cdylist(&s2), cdylist(&z2));
             }
             sink.case("variant", input, coq, &["C05"]);
